@@ -306,8 +306,19 @@ def c17_connection(ch, build):
     # in the discarded round survives; and a second retrieval on the same session returns what a fresh one does
     from . import c14
     sdr_meta = []
+    gens = []
     for k in range(6 if ch.quick() else 40):
         a = c14.gen_repo(rng, rng.choice([3, 4, 5]), first_zero=False)
+        # (the first record is a Full Sensor Record, so that something has been collected when the change comes)
+        tries = 0
+        while a[0]["type"] != 0x01 and tries < 50:
+            a = c14.gen_repo(rng, rng.choice([3, 4, 5]), first_zero=False); tries += 1
+        gens.append(a)
+    # the number of requests of an undisturbed retrieval of each repository: the change is injected late in the walk
+    probes = [{"bmc": default_bmc(seed=480 + k, suites=[[100, 1, 1, 1]], sdrs=[{"id": r["id"], "data": r["data"]} for r in a], addition=1000, erase=900),
+               "timeout_ms": 40, "steps": [hs.open_step(suites=[(1, 1, 1)]), {"op": "sdr", "conn": "session", "ctx_ms": 12000}]} for k, a in enumerate(gens)]
+    nreqs = [len(o["steps"][1]["sent"]) for o in run_scenarios(probes)]
+    for k, a in enumerate(gens):
         keep = [dict(r) for r in a[rng.choice([1, 2]):]]
         extra = [r for r in c14.gen_repo(rng, 2) if r["id"] not in [x["id"] for x in a] and r["id"] != 0]
         b = keep + extra if k % 2 else [dict(r, id=r["id"] + 7, data=(bytes([(r["id"] + 7) & 255, (r["id"] + 7) >> 8]) + bytes.fromhex(r["data"])[2:]).hex()) for r in a if r["id"] + 7 < 0xffff]
@@ -317,9 +328,12 @@ def c17_connection(ch, build):
         ra = [{"id": r["id"], "data": r["data"]} for r in a]
         rb = [{"id": r["id"], "data": r["data"]} for r in b]
         pre = [hs.open_step(suites=[su])]
-        # requests of a retrieval: 0 info, 1 reserve, 2.. headers and bodies, last: info again; with three or more records the
-        # requests 2, 3, 4 all lie inside the walk, before the closing info
-        at = rng.choice([2, 3, 4])
+        # requests of a retrieval: 0 info, 1 reserve, 2.. headers and bodies, last: info again.  The change comes before the
+        # closing info or one or two requests earlier: records of the old state have been collected by then
+        nreq = nreqs[k]
+        if nreq < 5:
+            continue
+        at = nreq - rng.choice([1, 1, 2, 3])
         ev = {"before": at, "kind": "modify_sdr", "sdrs": rb, "addition": 1001, "erase": 901}
         both = {"bmc": default_bmc(seed=480 + k, suites=[[100, su[0], su[1], su[2]]], sdrs=ra, addition=1000, erase=900), "timeout_ms": 40,
                 "steps": pre + [{"op": "sdr", "conn": "session", "ctx_ms": 12000, "events": [ev]}]}
